@@ -47,7 +47,7 @@ build_sched() {
   mkmod
   build_instrument || return 3
   "$SCR/build/instrument" -repo "$VERIF_REPO" -goroot "$GOROOT_V" -harness "$HERE/harness" -out "$SCR/build/ov" > "$SCR/build/instrument.log" || { cat "$SCR/build/instrument.log"; return 3; }
-  (cd "$HERE/harness" && $GO test -c -vet=off -modfile="$SCR/build/go.mod" -overlay "$SCR/build/ov/overlay.json" -o "$SCR/build/sched.test" ./sched) || return 3
+  (cd "$HERE/harness" && $GO test -c -tags verifrt -vet=off -modfile="$SCR/build/go.mod" -overlay "$SCR/build/ov/overlay.json" -o "$SCR/build/sched.test" ./sched) || return 3
 }
 
 case "${1:-}" in
